@@ -193,6 +193,30 @@ def re_search_or(text: str) -> bool:
     return re.match(r"\s*INSERT\s+OR\s+", text, re.I) is not None or re.match(r"\s*REPLACE\b", text, re.I) is not None
 
 
+def _row_index(f: ast.AST, value: ast.AST, reader: str):
+    """position in the result row that `value` is computed from: `row[i]` inside it, or a local bound by unpacking the row
+    (`a, b, c = row`) or by `x = row[i]`; None when the value does not depend on the row at all (a positive finding);
+    a local of unknown origin makes the rule inconclusive"""
+    for n in ast.walk(value):
+        if isinstance(n, ast.Subscript) and isinstance(n.slice, ast.Constant) and isinstance(n.slice.value, int):
+            return n.slice.value
+    names = [n.id for n in ast.walk(value) if isinstance(n, ast.Name) and isinstance(n.ctx, ast.Load)]
+    for nm in names:
+        for st in walk_no_nested(f):
+            if not isinstance(st, ast.Assign) or len(st.targets) != 1:
+                continue
+            tg = st.targets[0]
+            if isinstance(tg, (ast.Tuple, ast.List)) and all(isinstance(x, ast.Name) for x in tg.elts) and isinstance(st.value, ast.Name) \
+                    and nm in [x.id for x in tg.elts]:
+                return [x.id for x in tg.elts].index(nm)
+            if isinstance(tg, ast.Name) and tg.id == nm and isinstance(st.value, ast.Subscript) \
+                    and isinstance(st.value.slice, ast.Constant) and isinstance(st.value.slice.value, int):
+                return st.value.slice.value
+    if names:
+        raise AnalysisError("{}: where `{}` (an argument of Page(...)) comes from was not recognised".format(reader, names[0]))
+    return None
+
+
 def rule_r3(ctx, sf: SqlFacts) -> RuleResult:
     rr = RuleResult("C10.R3", "INSERT columns align with bound values; SELECT columns align with Page(...)", min_instances=18)
     ins = [s for s in sf.in_function("core.Wtp.add_page") if s.kind == "INSERT"][0]
@@ -234,10 +258,7 @@ def rule_r3(ctx, sf: SqlFacts) -> RuleResult:
                 raise AnalysisError(reader + ": positional Page(...) arguments are not supported by the rule")
             seen = set()
             for kw in c.keywords:
-                idx = None
-                for n in ast.walk(kw.value):
-                    if isinstance(n, ast.Subscript) and isinstance(n.slice, ast.Constant) and isinstance(n.slice.value, int):
-                        idx = n.slice.value
+                idx = _row_index(f, kw.value, reader)
                 if idx is None or idx >= len(cols):
                     rr.bad(Finding("C10.R3", CORE, reader, "{}={}".format(kw.arg, unparse(kw.value)),
                                    "field is not taken from a result column", kw.value.lineno))
@@ -368,10 +389,20 @@ def rule_r6(ctx, sf: SqlFacts) -> RuleResult:
     gp = ctx.fn("core.Wtp.get_page")
 
     def main_strip(fn):
+        """the construct that removes a leading 'Main:' from the title: `if t.startswith('Main:'): t = t[5:]` or
+        `t.removeprefix('Main:')`"""
         for n in walk_no_nested(fn):
-            if isinstance(n, ast.If) and unparse(n.test) == "title.startswith('Main:')":
-                if len(n.body) == 1 and unparse(n.body[0]) == "title = title[5:]":
+            if isinstance(n, ast.If) and isinstance(n.test, ast.Call) and isinstance(n.test.func, ast.Attribute) \
+                    and n.test.func.attr == "startswith" and len(n.test.args) == 1 and isinstance(n.test.args[0], ast.Constant) \
+                    and n.test.args[0].value == "Main:" and len(n.body) == 1 and isinstance(n.body[0], ast.Assign):
+                v = n.body[0].value
+                recv = unparse(n.test.func.value)
+                if isinstance(v, ast.Subscript) and unparse(v.value) == recv and isinstance(v.slice, ast.Slice) and v.slice.upper is None \
+                        and unparse(v.slice.lower) in ("5", "len('Main:')") and unparse(n.body[0].targets[0]) == recv:
                     return n
+            if isinstance(n, ast.Call) and isinstance(n.func, ast.Attribute) and n.func.attr == "removeprefix" and len(n.args) == 1 \
+                    and isinstance(n.args[0], ast.Constant) and n.args[0].value == "Main:":
+                return n
         return None
 
     a, g = main_strip(ap), main_strip(gp)
